@@ -91,10 +91,14 @@ func C15(c *Ctx) {
 		return (name != "stmts12" && name != "len10" && name != "prec_mixed" && name != "redecl" && !strings.HasPrefix(name, "rich_"))
 	}
 	runGenEntry(c, "C15", "VerifHistory", []int{nx, ny}, GoVariants, []string{"after-accept", "after-reject"}, small)
-	c.Bound("interleaving: a complete parse of y on a second context inside the k-th reduction (k symbolic) of a parse of x; object-mode variants")
+	c.Bound("interleaving: a complete parse of y inside the k-th reduction (k symbolic) of a parse of x - on a second context (object mode), between PushContex() and PopContex() (global mode)")
 	c.Harnesses = append(c.Harnesses, "generated zz_verif_spec.go:VerifInterleave")
 	c.Explanation += " Interleaving on distinct contexts is explored at the granularity of semantic actions: the harness starts a complete parse on a fresh context from inside a solver-chosen reduction of another parse and requires both outcomes to equal the solo runs; the set of package-level variables written during an object-mode parse is recorded as a note."
-	runGenEntry(c, "C15", "VerifInterleave", []int{nx + 1, ny}, []string{"go-o", "go-o-u"}, []string{"interleaved"}, small)
+	iv := []string{"go", "go-o"} // the two driver texts: nested through PushContex/PopContex resp. on a second context
+	if c.Thorough() {
+		iv = GoVariants
+	}
+	runGenEntry(c, "C15", "VerifInterleave", []int{nx + 1, ny}, iv, []string{"interleaved"}, small)
 	// induction step for histories of any length: from arbitrary stack contents
 	D := 3
 	if c.Thorough() {
